@@ -142,10 +142,9 @@ func Apply(dip *inode.Inode, op *fstxn.FsTxn, start uint64,
 	f func(*inode.Inode, string, common.Inum, uint64)) bool {
 	var eof bool = true
 	var ip *inode.Inode
+	// start is the cookie of the last entry already returned: the offset
+	// just past it (0 for the beginning of the directory)
 	var begin = uint64(start)
-	if begin != 0 {
-		begin += DIRENTSZ
-	}
 	// TODO: arbitrary estimate of constant XDR overhead
 	var n uint64 = uint64(64)
 	var dirbytes uint64 = uint64(0)
@@ -191,10 +190,9 @@ func Apply(dip *inode.Inode, op *fstxn.FsTxn, start uint64,
 func ApplyEnts(dip *inode.Inode, op *fstxn.FsTxn, start uint64, count uint64,
 	f func(string, common.Inum, uint64)) bool {
 	var eof bool = true
+	// start is the cookie of the last entry already returned: the offset
+	// just past it (0 for the beginning of the directory)
 	var begin = uint64(start)
-	if begin != 0 {
-		begin += DIRENTSZ
-	}
 	// TODO: this is supposed to track the size of the XDR-encoded reply in
 	// bytes, and we somewhat arbitrarily use 64 as the constant overhead
 	var n uint64 = uint64(64)
